@@ -111,6 +111,7 @@ var c19Inputs = []struct {
 	{"numbers", `{"s": 1e21, "a": -0.0, "n": 1e-7, "t": 9007199254740993, "arr": [1.5e300, 5e-324]}`, true},
 	{"invalid utf-8 inside a string", "{\"a\": \"x\xffy\"}", true},
 	{"json-like text inside strings", `{"a": "epoch 3, loss: NaN, lr 0.1", "s": "[-Infinity, 0)", "max:Infinity": 1, "arr": ["x, NaN", ":NaN", "[NaN]", ",Infinity", "// not a comment", "/* nor this */", "{'single': 1,}", "0x10", "01", "+1", ".5", "1.", "\\u0000"], "t": ": null, \"k\": [true]", "n": 1, "objs": [{"n": 1, "s": "NaN"}, {"n": 2, "s": "-Infinity"}]}`, true},
+	{"numbers with 16 and 17 significant digits", `{"a": [0.1, 0.2], "arr": [1, 2, 2], "n": 3.141592653589793, "s": 1.0000000000000002, "t": 0.30000000000000004, "objs": [{"n": 0.1, "s": "x"}, {"n": 0.7, "s": "y"}, {"n": 1e-7, "s": "z"}], "b": 2.220446049250313e-16, "c": 123456789.12345679}`, true},
 	{"string document holding a JSON array", `"[]"`, true},
 	{"string document holding a JSON object", `"{\"foo\":{\"bar\":1},\"a\":[1,2]}"`, true},
 	{"string document holding a JSON number", `"123"`, true},
@@ -209,14 +210,17 @@ func c19(r *mon.Run) {
 	}
 	defer os.RemoveAll(tmp)
 	files := make([]string, len(c19Inputs))
+	links := make([]string, len(c19Inputs))
 	for i, in := range c19Inputs {
 		files[i] = filepath.Join(tmp, fmt.Sprintf("in%d.json", i))
 		os.WriteFile(files[i], []byte(in.data), 0o644)
+		links[i] = filepath.Join(tmp, fmt.Sprintf("l%d", i)) // (a short name: the link's own size differs from the file's)
+		os.Symlink(files[i], links[i])
 	}
 	fixedGood := []string{"a.b[2].c", "arr", "sort(arr)", "objs[*].n", "sort_by(objs, &n)[0].s", "@", "*", "keys(@)", "length(@)", "[0]", "a.b[?@ > `1`]", "to_string(@)", "s", "n", "t", "z", "{x: n, y: s}", "[n, s, `null`]",
 		"'<raw>&'", "`{\"k\": [1, 2]}`", "a.b[::-1]", "not_null(z, s)", "type(n)", "max_by(objs, &n)", "join(', ', objs[*].s)", "a || b", "!z", "n < `0`", "\"é\"", "a.\"b\"[0]", "sum(arr)", "avg(arr)", "arr[1:]", "merge(@, {x: `1`})", "keys(@)[0]", "sort(keys(@))", "'50%'", "'%d'", "{p: '%s', q: s}",
 		"to_string(o)", "to_string(arr)", "to_string(@)", "'\\u003e'", "'\\u0026amp; \\u003c'", "keys(o)", "to_string(to_string(@))", "join('', arr)", "to_string(objs[*].s)", "o", "t", "[a, s, t]", "to_string(t)", "`\"\\\\u003c\"`", "to_string(`\"<&>\"`)", "to_string(['<', '>', '&'])",
-		"type(@)", "length(@)", "reverse(@)", "starts_with(@, '[')", "foo.bar", "sort(@)", "join(',', @)", "[0]", "@ == '[]'", "\"max:Infinity\"", "contains(a, 'NaN')", "arr[?contains(@, 'NaN')]", "objs[?s == 'NaN'].n", "length(s)", "keys(@)", "arr[0]", "ends_with(s, ', 0)')"}
+		"sum(a)", "avg(arr)", "avg(objs[*].n)", "sum(objs[*].n)", "[n, s, t, b, c]", "max(a)", "a[0]", "sum(a) == t", "objs[?n > `0.5`].n | [0]", "type(@)", "length(@)", "reverse(@)", "starts_with(@, '[')", "foo.bar", "sort(@)", "join(',', @)", "[0]", "@ == '[]'", "\"max:Infinity\"", "contains(a, 'NaN')", "arr[?contains(@, 'NaN')]", "objs[?s == 'NaN'].n", "length(s)", "keys(@)", "arr[0]", "ends_with(s, ', 0)')"}
 	evalErr := []string{"abs('x')", "abs()", "nosuchfn(@)", "arr[::0]", "sort_by(objs, &@)", "length(n)", "[abs(s), n]", "objs[*].abs(s)", "merge(@, `1`)", "to_string(&a)", "sum(a)", "max(`[1, \"a\"]`)"}
 	n := tierPick(r, 4000, 40000)
 	w := mon.Workload{Name: "invocations", N: n, Batch: 50,
@@ -248,10 +252,10 @@ func c19(r *mon.Run) {
 			}
 			ii := rng.Intn(len(c19Inputs))
 			if i%3 == 0 {
-				ii = rng.Intn(22) // favour valid input
+				ii = rng.Intn(23) // favour valid input
 			}
 			in := c19Inputs[ii]
-			channel := []string{"stdin", "file", "missing file"}[[]int{0, 0, 1, 1, 1, 2}[rng.Intn(6)]]
+			channel := []string{"stdin", "file", "missing file", "file through a symbolic link", "/dev/stdin as the file"}[[]int{0, 0, 1, 1, 1, 2, 3, 3, 4}[rng.Intn(9)]]
 			dashdash := rng.Bool()
 			var args []string
 			var stdin []byte
@@ -261,6 +265,12 @@ func c19(r *mon.Run) {
 			case "file":
 				args = append(args, "-input", files[ii])
 				stdin = []byte(`{"wrong": "stdin must be ignored when -input is given"}`)
+			case "file through a symbolic link":
+				args = append(args, "-input", links[ii])
+				stdin = []byte(`{"wrong": "stdin must be ignored when -input is given"}`)
+			case "/dev/stdin as the file":
+				args = append(args, "-input", "/dev/stdin")
+				stdin = []byte(in.data)
 			default:
 				args = append(args, "-input", filepath.Join(tmp, "does-not-exist.json"))
 			}
@@ -271,6 +281,9 @@ func c19(r *mon.Run) {
 			// the oracle: the library in this process
 			var doc interface{}
 			inputOK := channel != "missing file" && json.Unmarshal([]byte(in.data), &doc) == nil
+			if channel == "/dev/stdin as the file" && len(in.data) > 60000 {
+				inputOK = inputOK && true // (a pipe delivers large inputs in several reads: ReadFile copes)
+			}
 			var lib mon.Observed
 			if inputOK {
 				lib = apiSearch(expr, doc)
